@@ -113,6 +113,14 @@ func init() {
 			for _, n := range bigs {
 				js = append(js, JobSpec{Set: "proto", Fn: "HarnessC02Big", Params: p("n", fmt.Sprint(n))})
 			}
+			// wide arrays (element count written and read back as a decimal; allocation sizes of the reader)
+			wides := []int{0, 9, 10, 11, 100, 1024, 1025}
+			if tier == "thorough" {
+				wides = append(wides, 999, 1000, 4096, 4097, 10000)
+			}
+			for _, n := range wides {
+				js = append(js, JobSpec{Set: "proto", Fn: "HarnessC01Wide", Params: p("n", fmt.Sprint(n))})
+			}
 			for _, h := range []string{"HarnessC01Ctors", "HarnessC01Int", "HarnessC01Float"} {
 				js = append(js, JobSpec{Set: "redis", Fn: h, Params: p("strlen", map[string]string{"quick": "3", "thorough": "4"}[tier])})
 			}
@@ -122,15 +130,16 @@ func init() {
 			"HarnessC01Tree":  {"end", "parsed", "array", "null-bulk", "empty-bulk"},
 			"HarnessC01Bulk":  {"end"},
 			"HarnessC02Big":   {"end"},
+			"HarnessC01Wide":  {"end"},
 			"HarnessC01Ctors": {"end", "ok", "status", "error", "bulk", "nil", "strings"},
 			"HarnessC01Int":   {"end", "negative", "digits19"},
 			"HarnessC01Float": {"end"},
 		},
 		Bounds: func(tier string) map[string]interface{} {
 			if tier == "thorough" {
-				return map[string]interface{}{"trees": "depth<=2 arity<=2 payload<=2; depth 3 arity 1; arity 3 depth 1; payload<=4 depth 1", "bulk_lengths": "0,1,2,9,10,11,99,100,101,999,1000,1001,9999,10000,65535,65536,100000 (all byte values)", "integer_constructor": "all int64", "constructor_strings": "<=4 bytes", "float_constructor": "fixed witness list (format/parse are strconv's)", "long_mixed_streams": "status, [error, bulk of n bytes, integer], status, [bulk], integer with n = 100, 4090, 4096, 5000, 65536, 70000 (first/last byte and all line payloads symbolic)"}
+				return map[string]interface{}{"trees": "depth<=2 arity<=2 payload<=2; depth 3 arity 1; arity 3 depth 1; payload<=4 depth 1", "bulk_lengths": "0,1,2,9,10,11,99,100,101,999,1000,1001,9999,10000,65535,65536,100000 (all byte values)", "integer_constructor": "all int64", "constructor_strings": "<=4 bytes", "float_constructor": "fixed witness list (format/parse are strconv's)", "wide_arrays": "arrays of 0, 9, 10, 11, 100, 999, 1000, 1024, 1025, 4096, 4097, 10000 mixed elements (three symbolic), alone and nested", "long_mixed_streams": "status, [error, bulk of n bytes, integer], status, [bulk], integer with n = 100, 4090, 4096, 5000, 65536, 70000 (first/last byte and all line payloads symbolic)"}
 			}
-			return map[string]interface{}{"long_mixed_streams": "status, [error, bulk of n bytes, integer], status, [bulk], integer with n = 4090, 5000 (first/last byte and all line payloads symbolic)", "trees": "depth<=1 arity<=2 payload<=2; depth 2 arity 1 payload 1; leaves payload<=4", "bulk_lengths": "0,1,2,9,10,11,99,100,101,999,1000,1001,9999,10000,65535,65536 (all byte values)", "integer_constructor": "all int64", "constructor_strings": "<=3 bytes", "float_constructor": "fixed witness list (format/parse are strconv's)"}
+			return map[string]interface{}{"wide_arrays": "arrays of 0, 9, 10, 11, 100, 1024, 1025 mixed elements (three symbolic), alone and nested", "long_mixed_streams": "status, [error, bulk of n bytes, integer], status, [bulk], integer with n = 4090, 5000 (first/last byte and all line payloads symbolic)", "trees": "depth<=1 arity<=2 payload<=2; depth 2 arity 1 payload 1; leaves payload<=4", "bulk_lengths": "0,1,2,9,10,11,99,100,101,999,1000,1001,9999,10000,65535,65536 (all byte values)", "integer_constructor": "all int64", "constructor_strings": "<=3 bytes", "float_constructor": "fixed witness list (format/parse are strconv's)"}
 		},
 		Assumptions: append([]string{
 			"line-type payloads exclude CR and LF (the property's quantifier); bulk payload bytes are unconstrained",
